@@ -3,7 +3,7 @@
 its own property (plus the extra ones listed in EXTRA), revert, and write seeded/<name>/final.json with the outcome.
 Must not run concurrently with anything else that reads /repo."""
 import os, re, subprocess, sys, json, glob
-EXTRA = {"C01-r2B": ["C12", "C13"], "C02-r2A": ["C16"], "C03-r2A": ["C10"], "C10-r2A": ["C16"], "C01-r3B": ["C13"], "C04-r3B": ["C10"], "C05-r5A": ["C13"], "C13-r5B": ["C12"], "C03-r6A": ["C16"], "C10-r6A": ["C01"], "C05-r7B": ["C13"], "C01-r9A": ["C13"]}
+EXTRA = {"C01-r2B": ["C12", "C13"], "C02-r2A": ["C16"], "C03-r2A": ["C10"], "C10-r2A": ["C16"], "C01-r3B": ["C13"], "C04-r3B": ["C10"], "C05-r5A": ["C13"], "C13-r5B": ["C12"], "C03-r6A": ["C16"], "C10-r6A": ["C01"], "C05-r7B": ["C13"], "C01-r9A": ["C13"], "C04-r10A": ["C06", "C01"]}
 pat = sys.argv[1] if len(sys.argv) > 1 else ""
 rows = []
 for d in sorted(glob.glob("/verif/seeded/C*")):
